@@ -67,6 +67,7 @@ def check(ctx):
     ctx.rule("R1", "a binder visitor exists for every binding construct of the running interpreter that the property lists, registers names derived from exactly the construct's name-bearing fields, and continues into the children", floor=30)
     ctx.rule("R2", "every re-interpretation of Python text as a command (try_subproc_toks) is control-dependent on `not is_in_scope(<the same node>)` (allow-list: documented opt-in and non-Python assignment targets)", floor=6)
     ctx.rule("R3", "scope push/pop is paired on every normal path of the function/class visitors; lambdas and comprehensions are exempt from command interpretation", floor=6)
+    ctx.rule("R5", "the set of bound names given to the parser is computed at every compile from the live builtins module and the caller's namespaces", floor=2)
     ctx.rule("R4", "the whole input is compiled before anything is executed (no piecewise compile-and-run)", floor=4)
 
     mod = ctx.repo.module(AS)
@@ -265,6 +266,34 @@ def check(ctx):
         ds = ddefs.get(unparse(a0), [])
         ok = ok and bool(ds) and all(d.kind == "unpack" and isinstance(d.value, ast.Call) and call_name(d.value) == "self.push" for d in ds) and not any(isinstance(a, (ast.For, ast.While)) for a in ancestors(c))
     ctx.ob("R4", f"{BS}:BaseShell.default", "an interactive input is compiled as a whole by push() before run_compiled_code executes it", ok, key="default|code-source")
+
+
+    # ------------------------------------------------------------------ R5
+    # "bound" includes every name the builtins module defines *now*: names appear there in mid-session
+    # (`_` from the display hook, xontribs, rc snippets).  The root context handed to the parser must be
+    # computed from the live module at every compile; a set remembered in the Execer (or anywhere else
+    # across compiles) makes a later builtin read as unbound - and run as a command.
+    cflat = flat(ctx, ex.func("Execer.compile"), depth=2, skip=("parse",))
+    cfdefs = df.all_defs(cflat)
+    pcalls = [c for c in calls_in(cflat) if call_name(c) == "self.parse"]
+    if not pcalls:
+        raise AnchorMissing(f"{EX}:Execer.compile: call of self.parse")
+    for c in pcalls:
+        carg = c.args[1] if len(c.args) > 1 else kwarg(c, "ctx")
+        lv = df.leaves(cfdefs, carg) if carg is not None else set()
+        # helpers called inside the expression: what their return values are built from
+        for _round in range(2):
+            for k_, t_ in sorted(lv):
+                if k_ == "call" and t_.startswith("self.") and ex.has("Execer." + t_[5:]):
+                    h_ = ex.func("Execer." + t_[5:])
+                    hd_ = df.all_defs(h_)
+                    for r_ in walk_local(h_):
+                        if isinstance(r_, ast.Return) and r_.value is not None:
+                            lv |= df.leaves(hd_, r_.value)
+        live = ("call", "dir") in lv and any(k == "name" and t == "builtins" for k, t in lv)
+        state = sorted(t for k, t in lv if k == "attr" and t.startswith("self.") and not t.startswith("self.parser"))
+        ctx.ob("R5", f"{EX}:Execer.compile", "the root context contains dir(builtins) evaluated during this compile", live, key="compile|builtins-not-live", where=loc(c), detail=str(sorted(lv))[:300] if not live else None)
+        ctx.ob("R5", f"{EX}:Execer.compile", "no part of the root context is read from state kept across compiles (a remembered name set goes stale when builtins gains a name)", not state, key="compile|context-from-state", where=loc(c), detail=f"reads {state}" if state else None)
 
 
 META = {
